@@ -111,7 +111,8 @@ func VictimMain(args []string) int {
 		}
 	}
 	cfg := hybridbuffer.Config{RootPath: *dir, MaxBufSize: datasize.ByteSize(1 << 30)}
-	buf := cfg.NewBufferer(logger.Root(), "", matchChunkID, promreg.NewMetricFactory("cfv_", nil, nil), false)
+	vmf := promreg.NewMetricFactory("cfv_", nil, nil)
+	buf := cfg.NewBufferer(logger.Root(), "", matchChunkID, vmf, false)
 	buf.Start()
 	cargs := buf.RegisterNewConsumer()
 	go func() { // a stalled consumer
@@ -139,6 +140,11 @@ func VictimMain(args []string) int {
 		}
 	}
 	buf.Destroy()
+	// the gauges of a process that ends in an orderly way agree with the chunk files it leaves (C19), also after failed writes
+	vm := vmetrics.Gather(vmf)
+	pb := int(vm["cfv_persistent_chunk_bytes{storage=hybridBuffer}"])
+	emitJSON("VictimGauges", "persistentChunks", int(vm["cfv_persistent_chunks{storage=hybridBuffer}"]), "persistentUnits", pb / *unit, "unitsExact", pb%*unit == 0,
+		"ioErrors", int(vm["cfv_io_errors_total{storage=hybridBuffer}"]))
 	return 0
 }
 
